@@ -106,46 +106,113 @@ type lcell struct {
 }
 
 type lsheet struct {
-	name   string
-	cells  map[[2]int]lcell // (row,col) 0-indexed
-	merges [][4]int         // sr,sc,er,ec
+	name  string
+	cells map[[2]int]lcell // (row,col) 0-indexed; the value the cell displays
+	// stale: values stored in the file at positions covered by a merged region
+	// (any cell of the region but its top-left). Producers that merge without
+	// clearing keep them; a covered cell displays nothing, so these never appear
+	// in cells.
+	stale  map[[2]int]lcell
+	merges [][4]int // sr,sc,er,ec
 }
 
 var words = []string{"alpha", "β-beta", "x", "Q3 total", "a|b", "<tag>", "\"q\"", "it's", "1e5", "  padded ", "日本語", "émoji😀", "&amp;", "TRUE", "0", "-12.50", "#N/A", "=A1+B2", "名前", "a,b;c"}
 
+// blankish: displayed values that are not empty but show no ink (white space
+// only, ASCII and Unicode). A cell holding one is a valued cell like any other.
+var blankish = []string{" ", "  ", "\u00a0", "\u3000", " \u00a0 ", "\u2003"}
+
+var kinds = []string{"shared", "rich", "inline", "str", "bool", "err", "num", "formula"}
+var stringKinds = []string{"shared", "rich", "inline", "str"}
+
+// genCell draws one cell of any kind with its displayed value.
+func genCell(r *hx.Rng) lcell {
+	k := hx.Pick(r, kinds)
+	var v string
+	switch k {
+	case "bool":
+		v = hx.Pick(r, []string{"TRUE", "FALSE"})
+	case "err":
+		v = hx.Pick(r, []string{"#N/A", "#DIV/0!", "#REF!"})
+	case "num":
+		v = hx.Pick(r, []string{"0", "42", "-3.25", "1E+20", "12345678901234567890", "0.1"})
+	case "formula":
+		v = ""
+	default:
+		if r.Chance(1, 8) {
+			v = hx.Pick(r, blankish)
+			break
+		}
+		v = hx.Pick(r, words)
+		if r.Chance(1, 4) {
+			v += " " + hx.Pick(r, words)
+		}
+	}
+	return lcell{k, v}
+}
+
+// genSlight draws a valued cell that is easy to mistake for "nothing there":
+// white space only (every string kind), zero, FALSE, one character.
+func genSlight(r *hx.Rng) lcell {
+	switch r.Intn(6) {
+	case 0:
+		return lcell{"num", "0"}
+	case 1:
+		return lcell{"bool", "FALSE"}
+	case 2:
+		return lcell{hx.Pick(r, stringKinds), hx.Pick(r, []string{"x", "-", ".", "0"})}
+	default:
+		return lcell{hx.Pick(r, stringKinds), hx.Pick(r, blankish)}
+	}
+}
+
+// valuedBox is the bounding box of the cells that display a value.
+func valuedBox(sh lsheet) (minR, minC, maxR, maxC int) {
+	minR, minC, maxR, maxC = 1<<30, 1<<30, -1, -1
+	for pos, lc := range sh.cells {
+		if lc.value == "" {
+			continue
+		}
+		if pos[0] < minR {
+			minR = pos[0]
+		}
+		if pos[0] > maxR {
+			maxR = pos[0]
+		}
+		if pos[1] < minC {
+			minC = pos[1]
+		}
+		if pos[1] > maxC {
+			maxC = pos[1]
+		}
+	}
+	return
+}
+
 func genSheet(r *hx.Rng, idx int, big bool) lsheet {
-	sh := lsheet{name: fmt.Sprintf("Sheet %c%d", 'A'+idx, r.Intn(90)), cells: map[[2]int]lcell{}}
+	sh := lsheet{name: fmt.Sprintf("Sheet %c%d", 'A'+idx, r.Intn(90)), cells: map[[2]int]lcell{}, stale: map[[2]int]lcell{}}
 	maxR, maxC := r.Range(1, 12), r.Range(1, 10)
 	if big {
 		maxR, maxC = r.Range(20, 200), r.Range(27, 702)
 	}
-	n := r.Range(0, 14)
-	kinds := []string{"shared", "rich", "inline", "str", "bool", "err", "num", "formula"}
-	for i := 0; i < n; i++ {
-		pos := [2]int{r.Intn(maxR), r.Intn(maxC)}
-		k := hx.Pick(r, kinds)
-		var v string
-		switch k {
-		case "bool":
-			v = hx.Pick(r, []string{"TRUE", "FALSE"})
-		case "err":
-			v = hx.Pick(r, []string{"#N/A", "#DIV/0!", "#REF!"})
-		case "num":
-			v = hx.Pick(r, []string{"0", "42", "-3.25", "1E+20", "12345678901234567890", "0.1"})
-		case "formula":
-			v = ""
-		default:
-			v = hx.Pick(r, words)
-			if r.Chance(1, 4) {
-				v += " " + hx.Pick(r, words)
-			}
-		}
-		sh.cells[pos] = lcell{k, v}
+	// outliers: the sheet's content is moved away from A1 and a few valued cells
+	// are put strictly outside the box of all the others (see below)
+	outliers := r.Chance(1, 3)
+	offR, offC := 0, 0
+	if outliers {
+		offR, offC = r.Intn(4), r.Intn(4)
 	}
-	// non-overlapping merges; covered non-root cells carry no value
+	n := r.Range(0, 14)
+	for i := 0; i < n; i++ {
+		pos := [2]int{offR + r.Intn(maxR), offC + r.Intn(maxC)}
+		sh.cells[pos] = genCell(r)
+	}
+	// non-overlapping merges. A covered (non-top-left) cell displays nothing; it
+	// is either absent from the file (as Excel writes it) or still stores a value
+	// (as producers that merge without clearing write it).
 	occupied := map[[2]int]bool{}
 	for m := r.Intn(3); m > 0; m-- {
-		sr, sc := r.Intn(maxR), r.Intn(maxC)
+		sr, sc := offR+r.Intn(maxR), offC+r.Intn(maxC)
 		er, ec := sr+r.Intn(3), sc+r.Intn(3)
 		if er == sr && ec == sc {
 			ec++
@@ -162,17 +229,67 @@ func genSheet(r *hx.Rng, idx int, big bool) lsheet {
 		if !ok {
 			continue
 		}
+		keep := r.Chance(1, 2)
 		for a := sr; a <= er; a++ {
 			for b := sc; b <= ec; b++ {
 				occupied[[2]int{a, b}] = true
 				if a != sr || b != sc {
 					delete(sh.cells, [2]int{a, b})
+					if keep && r.Chance(2, 3) {
+						sh.stale[[2]int{a, b}] = genCell(r)
+					}
 				}
 			}
 		}
 		sh.merges = append(sh.merges, [4]int{sr, sc, er, ec})
 	}
+	if outliers {
+		for k := r.Range(1, 2); k > 0; k-- {
+			bminR, bminC, bmaxR, bmaxC := valuedBox(sh)
+			if bmaxR < 0 { // nothing displays a value yet: the outlier is the whole content
+				bminR, bminC, bmaxR, bmaxC = offR, offC, offR, offC
+			}
+			// side per axis: 0 before the box, 1 inside it, 2 after it; not inside on both
+			vr, vc := r.Intn(3), r.Intn(3)
+			if vr == 1 && vc == 1 {
+				vr = 2 * r.Intn(2)
+			}
+			pick := func(side, lo, hi int) int {
+				switch {
+				case side == 0 && lo > 0:
+					return r.Intn(lo)
+				case side == 1:
+					return lo + r.Intn(hi-lo+1)
+				default:
+					return hi + 1 + r.Intn(3)
+				}
+			}
+			pos := [2]int{pick(vr, bminR, bmaxR), pick(vc, bminC, bmaxC)}
+			if occupied[pos] {
+				continue
+			}
+			sh.cells[pos] = genSlight(r)
+		}
+	}
 	return sh
+}
+
+// sortedPos returns the keys of the maps in (row, col) order, so that a
+// workbook is a function of (seed, index) alone.
+func sortedPos(ms ...map[[2]int]lcell) [][2]int {
+	var ps [][2]int
+	for _, m := range ms {
+		for p := range m {
+			ps = append(ps, p)
+		}
+	}
+	sort.Slice(ps, func(i, j int) bool {
+		if ps[i][0] != ps[j][0] {
+			return ps[i][0] < ps[j][0]
+		}
+		return ps[i][1] < ps[j][1]
+	})
+	return ps
 }
 
 // physical renders the logical sheets; returns the workbook plus, per sheet, the
@@ -197,7 +314,11 @@ func physical(r *hx.Rng, sheets []lsheet) writers.XWorkbook {
 		xs := writers.XSheet{Name: sh.name, Path: fmt.Sprintf("worksheets/sheet%d.xml", si+1), RID: fmt.Sprintf("rId%d", si+1)}
 		byRow := map[int][]writers.XCell{}
 		lower := r.Chance(1, 6)
-		for pos, lc := range sh.cells {
+		for _, pos := range sortedPos(sh.cells, sh.stale) {
+			lc, shown := sh.cells[pos]
+			if !shown {
+				lc = sh.stale[pos]
+			}
 			ref := xlsx.IndexToColumn(pos[1]) + strconv.Itoa(pos[0]+1)
 			if lower {
 				ref = strings.ToLower(ref)
@@ -374,7 +495,7 @@ func RunWorkbook(c *hx.Ctx, idx int, keep bool) {
 		c.Op(sheetOpLine(wb, wb.Sheets[si]), dumpImplSheet(s, text))
 		// --- statement-level oracle ---
 		maxR, maxC := -1, 0
-		for pos := range sh.cells {
+		for _, pos := range sortedPos(sh.cells, sh.stale) {
 			if pos[0] > maxR {
 				maxR = pos[0]
 			}
@@ -394,25 +515,27 @@ func RunWorkbook(c *hx.Ctx, idx int, keep bool) {
 				noCtl = false
 			}
 		}
-		// content bounds for the table outputs
-		minR, minC, bmaxR, bmaxC := 1<<30, 1<<30, -1, -1
+		// content bounds for the table outputs: the box of the cells that display a
+		// value (a white-space value is a value; a value stored under a merged
+		// region is not displayed)
+		minR, minC, bmaxR, bmaxC := valuedBox(sh)
+		if bmaxR >= 0 {
+			nontrivial = true
+		}
+		outlier := false // a white-space-only value on the edge of the box, alone in its row or column
 		for pos, lc := range sh.cells {
-			if lc.value == "" {
+			if lc.value == "" || strings.TrimSpace(lc.value) != "" {
 				continue
 			}
-			nontrivial = true
-			if pos[0] < minR {
-				minR = pos[0]
+			if pos[0] == minR || pos[0] == bmaxR || pos[1] == minC || pos[1] == bmaxC {
+				outlier = true
 			}
-			if pos[0] > bmaxR {
-				bmaxR = pos[0]
-			}
-			if pos[1] < minC {
-				minC = pos[1]
-			}
-			if pos[1] > bmaxC {
-				bmaxC = pos[1]
-			}
+		}
+		if outlier {
+			c.Count("sheet:blank-looking-value-on-box-edge")
+		}
+		if len(sh.stale) > 0 {
+			c.Count("sheet:stored-values-under-merge")
 		}
 		var tbl *model.Table
 		if doc != nil && si < len(doc.Pages) {
@@ -435,9 +558,22 @@ func RunWorkbook(c *hx.Ctx, idx int, keep bool) {
 				if cell != nil {
 					got = cell.Value
 				}
-				c.Check("C17/grid-position", got == want, pos, func() string {
-					return fmt.Sprintf("Cell(%d,%d)=%q want %q", rr, cc, got, want)
-				})
+				if st, isStale := sh.stale[[2]int{rr, cc}]; isStale {
+					// the grid keeps what the file stores and marks the cell as covered
+					// (merged, not the root): that marking is how the grid says "blank";
+					// an unmarked cell showing the stored value is a misplaced value
+					shown := got
+					if cell != nil && cell.IsMerged && !cell.IsMergeRoot && got == st.value {
+						shown = ""
+					}
+					c.Check("C17/grid-position", shown == want, pos, func() string {
+						return fmt.Sprintf("Cell(%d,%d)=%q (stored under a merged region: %q) displays %q want %q", rr, cc, got, st.value, shown, want)
+					})
+				} else {
+					c.Check("C17/grid-position", got == want, pos, func() string {
+						return fmt.Sprintf("Cell(%d,%d)=%q want %q", rr, cc, got, want)
+					})
+				}
 				if cell != nil {
 					im, root := covered(sh, rr, cc)
 					c.Check("C17/merge-flags", cell.IsMerged == im && cell.IsMergeRoot == root, pos, func() string {
@@ -478,7 +614,12 @@ func RunWorkbook(c *hx.Ctx, idx int, keep bool) {
 					if rr-minR < len(rows) && cc-minC < len(rows[rr-minR]) {
 						got = rows[rr-minR][cc-minC]
 					}
-					c.Check("C17/markdown-cell", got == strings.TrimSpace(want), map[string]interface{}{"seed": c.Seed, "index": idx, "sheet": si, "row": rr, "col": cc}, func() string {
+					key := "C17/markdown-cell"
+					if _, isStale := sh.stale[[2]int{rr, cc}]; isStale && rr == minR {
+						// covered cell with a stored value in the table's first (header) row
+						key = "C17/markdown-header-covered-cell"
+					}
+					c.Check(key, got == strings.TrimSpace(want), map[string]interface{}{"seed": c.Seed, "index": idx, "sheet": si, "row": rr, "col": cc}, func() string {
 						return fmt.Sprintf("markdown cell (%d,%d)=%q want %q", rr-minR, cc-minC, got, want)
 					})
 				}
@@ -493,13 +634,16 @@ func RunWorkbook(c *hx.Ctx, idx int, keep bool) {
 }
 
 // mdTable reads the GFM pipe table of one sheet's markdown: rows of cells with
-// `\|` unescaped, the delimiter row dropped.
+// `\|` unescaped, the delimiter row (second line) dropped; a later row of
+// dashes ("| - |") is data.
 func mdTable(md string) [][]string {
 	var rows [][]string
+	pipeLines := 0 // the delimiter row is the table's second line and only that one
 	for _, line := range strings.Split(md, "\n") {
 		if !strings.HasPrefix(line, "|") {
 			continue
 		}
+		pipeLines++
 		var cells []string
 		var cur strings.Builder
 		body := line[1:]
@@ -520,7 +664,7 @@ func mdTable(md string) [][]string {
 				isDelim = false
 			}
 		}
-		if isDelim && len(rows) == 1 {
+		if isDelim && pipeLines == 2 {
 			continue
 		}
 		rows = append(rows, cells)
@@ -531,7 +675,7 @@ func mdTable(md string) [][]string {
 func init() { hx.Register("C17", Run, Replay) }
 
 func Run(c *hx.Ctx) {
-	c.Rep.Rule = "codec: every index in a bounded range + random big indices + malformed refs; workbooks: random logical sheets (sparse cells, 8 cell kinds, merges, shuffled rows/cells/members) rendered by the harness's XLSX writer; non-trivial = at least one non-empty cell; distinct by canonical workbook"
+	c.Rep.Rule = "codec: every index in a bounded range + random big indices + malformed refs; workbooks: random logical sheets (sparse cells, 8 cell kinds incl. white-space-only values, merges whose covered cells are absent or still store a value, in a third of the sheets content moved off A1 plus 1-2 slight-valued cells - white space, 0, FALSE, one character - strictly outside the box of all other valued cells; shuffled rows/cells/members) rendered by the harness's XLSX writer; non-trivial = at least one non-empty cell; distinct by canonical workbook"
 	codec(c)
 	n := c.N(250, 4000)
 	for i := 0; i < n; i++ {
